@@ -171,6 +171,12 @@ def run_translator(only=None):
         info = json.loads(p.stdout.strip().splitlines()[-1])
     except Exception:
         info = {"changed": [], "errors": ["translator crashed: " + p.stderr[-2000:]]}
+    # what the regenerated site table has that the contract has not (and the other way round), for the replay file
+    try:
+        with open(os.path.join(LEAN, "Astm/Generated/generated.%s.json" % ("-".join(only) if only else "all"))) as fh:
+            info["state_sites_differ"] = json.load(fh).get("purity_differs", {})
+    except Exception:
+        pass
     return info
 
 
@@ -466,6 +472,7 @@ def finish(pid, tier, t0, proof, streams, extra_assumptions=(), level_note="", s
     elif broken_proof or broken_corr:
         payload = {"property": pid, "kind": "no-failing-input-found", "seed": seed(), "tier": tier,
                    "broken_obligations": proof["failed"], "build_errors": proof.get("build_errors", []),
+                   "state_sites_differ": (proof.get("translator") or {}).get("state_sites_differ", {}),
                    "correspondence_disagreements": [{"stream": n, **d} for n, d in in_dis[:10]],
                    "search": search_info}
         path = write_replay(pid, payload)
